@@ -148,6 +148,14 @@ pub const VALID: &[(&str, Option<i64>)] = &[
     ("{ ok := mut true; r := (ok |= (ok = false)); x := if r { 2 } else { 0 }; y := if *ok { 1 } else { 0 }; x + y }", Some(0)),
     ("{ n := mut 0; ok := mut false; bump := () -> bool { n += 1; return true }; ok &= bump(); ok |= bump(); ok |= bump(); ok &= bump(); *n }", Some(4)),
     ("{ n := mut 0; z := mut 0; bump := () -> int { n += 1; return 0 }; z *= bump(); z &= bump(); z <<= bump(); *n }", Some(3)),
+    // a store of a value that compares equal to the content but is distinguishable (-0.0 / 0.0)
+    ("{ z := mut 0.0; z = 0.0 * (0.0 - 1.0); w := 1.0 / *z; if w < 0.0 { 1 } else { 0 } }", Some(1)),
+    ("{ z := mut 0.0; z *= 0.0 - 1.0; w := 1.0 / *z; if w < 0.0 { 1 } else { 0 } }", Some(1)),
+    ("{ z := mut 0.0 * (0.0 - 1.0); z += 0.0; w := 1.0 / *z; if w > 0.0 { 1 } else { 0 } }", Some(1)),
+    // the right-hand side of a compound assignment is a whole expression
+    ("{ p := mut 3; p **= 1 + 1; *p }", Some(9)),
+    ("{ p := mut 2; p += 2 * 3; p -= 10 - 4; p <<= 1 + 1; p |= 1 | 2; p %= 3 + 4; *p }", Some(4)),
+    ("{ p := mut 7; q := (p *= 2 + 1) + 1; q * 100 + *p }", Some(2221)),
     ("ps = struct{x := 5, y := 6}", None),
     ("pt = (2, \"t\")", None),
     ("pu = [\"a\", 2]", None),
@@ -249,7 +257,7 @@ impl Op {
             OpKind::SameCell(c2, p2) => format!("{p} == {}", path_src(*c2, *p2)),
             OpKind::BumpViaRhs => format!("{p} += wr()"),
             OpKind::Pull => "it()".to_string(),
-            OpKind::MkFresh(v) => match v % 10 {
+            OpKind::MkFresh(v) => match v % 12 {
                 0 => "{ x := mk(); y := mk(); x += 1; (*x, *y, x == y) }".to_string(),
                 1 => "{ p := [mut 0, mut 0]; p[0] += 1; (*p[0], *p[1], p[0] == p[1]) }".to_string(),
                 2 => "{ acc := mut [mut int] []; for i in [1, 2]~ { acc += [mut 0] }; q := *acc; q[0] += 1; (*q[0], *q[1], q[0] == q[1]) }".to_string(),
@@ -260,7 +268,10 @@ impl Op {
                 6 => "{ p := [struct{c := mut 0}; 2]; p[0].c += 1; (*p[0].c, *p[1].c, p[0].c == p[1].c) }".to_string(),
                 7 => "{ p := [mk(); 2]; q := (p[0], p); q.1[1] += 1; (*q.0, *p[0], q.0 == p[1]) }".to_string(),
                 8 => "{ rep := (c: mut int, n: int) -> [mut int] { return [c; n] }; x := mut 0; p := rep(x, 2); p[1] += 1; (*x, *p[0], x == p[1]) }".to_string(),
-                _ => "{ p := [(mut 0, 1); 2]; p[1].0 += 1; (*p[0].0, *p[1].0, p[0].0 == p[1].0) }".to_string(),
+                9 => "{ p := [(mut 0, 1); 2]; p[1].0 += 1; (*p[0].0, *p[1].0, p[0].0 == p[1].0) }".to_string(),
+                // two evaluations again: NAMED functions declared inside a function / a loop body
+                10 => "{ mkc := () -> () -> mut int { c := mut 0; get := () -> mut int { return c }; return get }; g1 := mkc(); g2 := mkc(); g1() += 1; (*g1(), *g2(), g1() == g2()) }".to_string(),
+                _ => "{ fs := mut [() -> mut int] []; for i in [1, 2]~ { c := mut 0; get := () -> mut int { return c }; fs += [get] }; q := *fs; q[0]() += 1; (*q[0](), *q[1](), q[0]() == q[1]()) }".to_string(),
             },
             OpKind::SelfShow => "std.convert.to_string(selfc)".to_string(),
             OpKind::SelfSet(v) => format!("selfc = {}", lit(v)),
@@ -436,6 +447,10 @@ pub fn int_op(op: &str, a: i64, b: i64) -> Result<i64, &'static str> {
 }
 
 pub fn compound(op: &str, cur: &Val, v: &Val) -> Result<Val, &'static str> {
+    if op.is_empty() {
+        // plain copy `p = *q`
+        return Ok(v.clone());
+    }
     match (cur, v) {
         (Val::Int(a), Val::Int(b)) => int_op(op, *a, *b).map(Val::Int),
         (Val::Float(a), Val::Float(b)) => Ok(Val::Float(match op {
@@ -572,7 +587,7 @@ impl Model {
                 self.iter_pos += 1;
                 Expect::Value(r)
             }
-            OpKind::MkFresh(v) if v % 10 < 4 => Expect::Value(Val::Arr(vec![Val::Int(1), Val::Int(0), Val::Bool(false)])),
+            OpKind::MkFresh(v) if v % 12 < 4 || v % 12 >= 10 => Expect::Value(Val::Arr(vec![Val::Int(1), Val::Int(0), Val::Bool(false)])),
             OpKind::MkFresh(_) => Expect::Value(Val::Arr(vec![Val::Int(1), Val::Int(1), Val::Bool(true)])),
             OpKind::SelfShow => Expect::Unchecked,
             OpKind::SelfSet(v) => Expect::Value(v.clone()),
@@ -678,7 +693,7 @@ pub fn gen_op(rng: &mut Rng, cfg: &GenCfg, unique: &mut i64) -> Op {
                 let (text, r) = VALID[rng.below(VALID.len())];
                 return Op { cell: 0, path: 0, kind: OpKind::Valid(text.to_string(), r) };
             }
-            return Op { cell: 0, path: 0, kind: OpKind::MkFresh(rng.below(10) as u8) };
+            return Op { cell: 0, path: 0, kind: OpKind::MkFresh(rng.below(12) as u8) };
         }
         let cell = if cfg.cells.is_empty() { rng.below(CELLS.len()) } else { cfg.cells[rng.below(cfg.cells.len())] };
         let spec = &CELLS[cell];
@@ -695,7 +710,7 @@ pub fn gen_op(rng: &mut Rng, cfg: &GenCfg, unique: &mut i64) -> Op {
                 let others: Vec<usize> = [0usize, 7, 8].into_iter().filter(|c| *c != cell).collect();
                 let c2 = others[rng.below(others.len())];
                 if k < 55 {
-                    OpKind::TransferFrom(["+", "-", "&", "|", "^", "*"][rng.below(6)].into(), c2, rng.below(3))
+                    OpKind::TransferFrom(["+", "-", "&", "|", "^", "*", "", ""][rng.below(8)].into(), c2, rng.below(3))
                 } else {
                     OpKind::CompareContents(c2, rng.below(3))
                 }
@@ -760,7 +775,7 @@ pub fn gen_op(rng: &mut Rng, cfg: &GenCfg, unique: &mut i64) -> Op {
                     let c2 = [0usize, 7, 8][rng.below(3)];
                     let p2 = rng.below(CELLS[c2].paths.len());
                     if rng.chance(1, 2) {
-                        OpKind::TransferFrom(["+", "-", "&", "|", "^"][rng.below(5)].into(), c2, p2)
+                        OpKind::TransferFrom(["+", "-", "&", "|", "^", ""][rng.below(6)].into(), c2, p2)
                     } else {
                         OpKind::CompareContents(c2, p2)
                     }
@@ -859,6 +874,11 @@ pub fn gen_op(rng: &mut Rng, cfg: &GenCfg, unique: &mut i64) -> Op {
 /// Assignments the checker must refuse: each would let a value outside the declared content type
 /// into a cell (directly, or through a `mut` subtyping hole).
 pub const ATTACKS: &[&str] = &[
+    // the VALUE of a compound assignment (typed as the cell's content) stored into a narrower cell
+    "{ cw := mut [int|float] [1.5]; c4 = (cw += [1]); 0 }",
+    "{ cw := mut [int|string] [\"s\"]; c4 = (cw += []); 0 }",
+    "{ cw := mut [int|float] [1.5]; w := (x: mut [int|float]) -> [int] { return x += [2] }; c4 = w(cw); 0 }",
+    "{ fw := mut any 0.5; c0 = (fw = 7); 0 }",
     // a callee whose static type is a union of functions with different cell parameters
     "{ f := (c: mut int) -> int { return 1 }; g := (c: mut (int|float)) -> int { c = 2.5; return 2 }; sel := mut false; h := if *sel { f } else { g }; h(c0) }",
     "{ f := (c: mut int) -> int { return 1 }; g := (c: mut (int|float)) -> int { c = 2.5; return 2 }; fs := [f, g]; i := mut 1; fs[*i](c0) }",
